@@ -2,6 +2,7 @@
 # tools/try_patch.sh <patch.diff> <Cxx> [tier]  -- apply a patch to /repo, run one check, always undo the patch.
 P="$1"; ID="$2"; TIER="${3:-quick}"
 git -C /repo apply "$P" || { echo "patch does not apply"; exit 3; }
+trap 'git -C /repo checkout -- . 2>/dev/null' EXIT INT TERM
 cd /verif && ./check "$ID" --tier "$TIER" > /verif/out/try_$ID.log 2>&1; RC=$?
 git -C /repo checkout -- . 
 grep -E '^(VIOLATION|KNOWN-FINDING|TOOL-ERROR)' /verif/out/try_$ID.log | head -5
